@@ -32,6 +32,11 @@ def main():
                         configs += [list(c) for c in coal.sfs._get_configs(n, m)]
                 r['perms'] = [sorted(list(map(int, p)) for p in pg.utils.multiset_permutations(items)) for items in case.get('perm_items', [])]
                 r['configs'] = configs
+                # the same distribution objects are first asked about OTHER mutation rates (what they return for theta must
+                # not depend on the rates they were asked about before)
+                for th0 in case.get('pre_thetas', []):
+                    coal.sfs.get_mutation_config(configs[0], th0)
+                    coal.fsfs.get_mutation_config([0] * (n // 2), th0)
                 r['probs'] = [float(coal.sfs.get_mutation_config(c, theta)) for c in configs]
                 # iterator bookkeeping
                 it = coal.sfs.get_mutation_configs(theta)
